@@ -2,7 +2,11 @@
 
 package httpcache
 
-import "time"
+import (
+	"time"
+
+	"github.com/unkn0wn-root/kioshun"
+)
 
 // Verification hooks (build tag "verif"): read-only views and an exported wrapper over
 // the pattern index. Nothing here is compiled into the default build.
@@ -135,4 +139,25 @@ func (v *VerifIndex) Nodes() int {
 		return c
 	}
 	return count(v.pi.root)
+}
+
+// VerifSettle waits until every removal the backing cache has staged since base was taken has been delivered to the
+// listeners (so that the path index has been reconciled), or the timeout elapses. base comes from VerifSettleBase.
+func (m *Middleware) VerifSettle(base [2]int64, timeout time.Duration) bool {
+	deadline := time.Now().Add(timeout)
+	for {
+		m.cache.VerifFlushRemovals()
+		if kioshun.VerifDeliveredCount()-base[1] >= kioshun.VerifStagedCount()-base[0] {
+			return true
+		}
+		if time.Now().After(deadline) {
+			return false
+		}
+		time.Sleep(20 * time.Microsecond)
+	}
+}
+
+// VerifSettleBase snapshots the process-wide staged / delivered counters.
+func VerifSettleBase() [2]int64 {
+	return [2]int64{kioshun.VerifStagedCount(), kioshun.VerifDeliveredCount()}
 }
